@@ -22,7 +22,7 @@ import json
 import os
 from collections import OrderedDict
 
-from harness import common, iolib
+from harness import common, iolib, histlib
 from harness.common import Case, req, ok, enc_str, fmt_clauses
 from harness.iolib import (enc_opt, enc_header, enc_names, enc_cnf, fmt_text, fmt_rows, py_lex,
                            indep_dimacs, dimacs_shape, write_raw, read_raw, tmpname)
@@ -32,7 +32,9 @@ from cnfgen.formula.cnf import CNF
 RULE = ("lex: ASCII texts over digits/signs/underscores/letters and every Python whitespace character; "
         "w: hand-built degenerate formulas (empty, empty clauses, unused variables, repeated literals), random formulas, "
         "formulas built by real cnfgen command lines incl. transformations, each with/without header and varnames, "
-        "header values and labels with unusual characters, through StringIO and through a real file; "
+        "header values and labels with unusual characters, through StringIO and through a real file; formula objects with a "
+        "history (harness/histlib.py) rendered after EVERY growth step (variables without clauses, clauses without variables, groups, "
+        "raised counts, batches, header edits), the same rendering / label lists / transformations / a solver run having happened before; "
         "r: valid texts in random layouts and their mutations (token deletion/duplication, sign flips, counts off by one, "
         "second p line, p after clauses, blank/comment lines inside clauses, +1, 1_0, tabs, CRLF, truncation, garbage tokens); "
         "distinct = distinct request line; non-trivial = at least one clause / one non-blank line")
@@ -48,6 +50,9 @@ def has_break(strings, u):
 
 # ------------------------------------------------------------------ building the real object
 def make_formula(info):
+    if info["src"] == "hist":
+        # ONE formula object with a history: grown step by step and looked at on the way (harness/histlib.py)
+        return histlib.play(info["steps"])
     if info["src"] == "cli":
         F = iolib.cli_formula("cnfgen", info["argv"], info.get("seed", 0))
         if F is None:
@@ -73,10 +78,12 @@ def build_w(info):
     u = bool(info.get("u", False))
     eh = bool(info.get("export_header", True))
     ev = bool(info.get("export_varnames", False))
-    n = F.number_of_variables()
-    clauses = [list(c) for c in F]
-    hdr = [("{}".format(k), "{}".format(v)) for k, v in F.header.items()]
-    names = ["{}".format(x) for x in F.all_variable_labels()] if ev else []
+    # the CURRENT content: of the object itself, or (history) of a twin built by the same growth steps and never looked at
+    R = histlib.twin(info["steps"]) if info["src"] == "hist" else F
+    n = R.number_of_variables()
+    clauses = [list(c) for c in R]
+    hdr = [("{}".format(k), "{}".format(v)) for k, v in R.header.items()]
+    names = ["{}".format(x) for x in R.all_variable_labels()] if ev else []
     r = req("wdimacs", u, enc_cnf(n, clauses), enc_opt(hdr if eh else None, enc_header),
             enc_opt(names if ev else None, enc_names))
     state = {}
@@ -100,6 +107,9 @@ def build_w(info):
         text = state.get("text")
         if text is None:
             return {"writer_raised_on_a_legal_formula": True}
+        if R is not F and (F.number_of_variables(), [list(c) for c in F]) != (n, clauses):
+            return {"looking_at_the_formula_changed_it": [F.number_of_variables(), [list(c) for c in F][:20]],
+                    "same_steps_never_observed": [n, clauses[:20]]}
         got = indep_dimacs(text, u)
         if got != ("ok", n, clauses):
             return {"independent_reader_sees": list(got)[:2] + [str(got[2:])[:200]], "in_memory": [n, clauses[:20]],
@@ -489,6 +499,38 @@ def writer_cases(rng, tier):
     return out
 
 
+JUDGED = [dict(export_header=False, export_varnames=False, via="to_dimacs"), dict(export_header=False, export_varnames=False),
+          dict(export_header=True, export_varnames=False), dict(export_header=True, export_varnames=True),
+          dict(export_header=False, export_varnames=True)]
+
+
+def as_observation(j):
+    """the judged rendering as a history step (so that the same rendering also happens EARLIER in the history)"""
+    if j.get("via") == "to_dimacs":
+        return {"obs": "to_dimacs"}
+    return {"obs": "to_file", "fmt": "dimacs", "header": j["export_header"], "names": j["export_varnames"]}
+
+
+def history_cases(rng, tier):
+    """a formula object is rendered after EVERY step of its growth (new variables without clauses, clauses without new
+    variables, groups, raised counts, batches, header edits), having been rendered / listed / transformed / shuffled
+    before: each text must denote the formula as it is at that moment"""
+    out = []
+    for j in JUDGED:
+        for h in histlib.minimal_histories([as_observation(j)]):
+            out.append(("w", dict(j, src="hist", steps=h, u=False)))
+    out.append(("w", dict(JUDGED[0], src="hist", u=False, steps=[{"op": "clause", "lits": [1, -2], "check": True}, {"obs": "solve"},
+                                                                  {"op": "update", "n": 3}])))
+    sizes = [8, 30] + common.probe_sizes(["formula/cnfio.py", "utils/parsedimacs.py", "formula/basecnf.py"], 9, 300)[:4]
+    for _ in range(30 if tier == "quick" else 1200):
+        j = rng.choice(JUDGED)
+        steps, cuts = histlib.gen_history(rng, rng.randint(2, 7), rng.choice(sizes), favourite=as_observation(j), become=.08)
+        for cut in cuts:
+            jj = j if rng.random() < .7 else rng.choice(JUDGED)
+            out.append(("w", dict(jj, src="hist", steps=steps[:cut], u=rng.random() < .2)))
+    return out
+
+
 CORPUS_TEXTS = [
     ("", "empty"), ("\n", "blank"), ("c only a comment\n", "no-p"), ("p cnf 0 0", "empty-formula"), ("p cnf 0 0\n", "empty-formula"),
     ("p cnf 0 1\n0\n", "empty-clause"), ("p cnf 2 1\n1 -2 0\n", "valid"), ("p cnf 2 1\n1 -2\n", "no-final-0"),
@@ -540,6 +582,7 @@ def cases(ctx):
             infos.append(("r", dict(text=[ord(c) for c in text], u=u, kind="corpus:" + kind)))
             infos.append(("lex", dict(text=[ord(c) for c in text], u=u, kind="corpus")))
     infos += writer_cases(common.sub_rng(seed, "C06", "w"), tier)
+    infos += history_cases(common.sub_rng(seed, "C06", "hist"), tier)
     infos += long_line_cases(common.sub_rng(seed, "C06", "long"), tier)
     infos += [("wl", dict(pow=4300, u=u, export_header=eh)) for u in (False, True) for eh in (False, True)]
     infos += reader_cases(common.sub_rng(seed, "C06", "r"), 2500 if tier == "quick" else 120000)
